@@ -257,32 +257,42 @@ def markMod (b : LBlock) : LBlock :=
 
 def Attrs.erase (a : Attrs) (k : String) : Attrs := a.filter fun kv => kv.1 ≠ k
 
-/-- the body of the loop of `_blocks` -/
-def blockStep (lib : Lib) (d : Dir) (mtype : String) (c : MCtx) (spec : String × Attrs) : Option MCtx := do
-  let (ident, noFetch) := stripBang spec.1
-  let attrs := spec.2
-  let fetchName : Option JVal := if noFetch then none else
+/-- what `_blocks` looks up for one block: the value of `attrs['resname']`, unless the identifier
+starts with `!` or the value is absent / `None` -/
+def fetchName (noFetch : Bool) (attrs : Attrs) : Option JVal :=
+  if noFetch then none else
     match attrs.get "resname" with
     | some .null => none
     | x => x
-  let c1 ← match fetchName with
-    | none => some c
-    | some v => do
-      let ffn ← c.ff d
-      let ff ← findFF lib ffn
-      let coll ← if mtype = "block" then some ff.blocks else if mtype = "modification" then some ff.mods else none
-      let rn ← match v with | .str s => some s | _ => none
-      let blk ← findBlock coll rn
-      let blk := if mtype = "modification" then markMod blk else blk
-      let m ← addBlock (c.mol d) blk
-      pure (c.setMol d m)
-  let c2 := match d with
-    | .frm =>
-      let name := match attrs.get "resname" with | some (.str s) => s | _ => ident
-      { c1 with names := c1.names ++ [name] }
-    | .to => c1
-  let attrs' := if mtype = "modification" then Attrs.erase attrs "resname" else attrs
-  pure { c2 with ids := dictSet c2.ids (d, ident) attrs' }
+
+/-- `getattr(self.force_fields[self.ff[direction]], map_type + 's')[resname]` added to the blocks of
+direction `d`; `none` = KeyError / TypeError / ValueError -/
+def fetchMol (lib : Lib) (d : Dir) (mtype : String) (c : MCtx) (v : JVal) : Option Mol := do
+  let ffn ← c.ff d
+  let ff ← findFF lib ffn
+  let coll ← if mtype = "block" then some ff.blocks else if mtype = "modification" then some ff.mods else none
+  let rn ← match v with | .str s => some s | _ => none
+  let blk ← findBlock coll rn
+  addBlock (c.mol d) (if mtype = "modification" then markMod blk else blk)
+
+/-- the end of the loop body of `_blocks`: `add_name`, `del attrs['resname']`, `identifiers[...] = attrs` -/
+def register (d : Dir) (mtype : String) (c : MCtx) (spec : String × Attrs) : MCtx :=
+  let ident := (stripBang spec.1).1
+  let attrs' := if mtype = "modification" then Attrs.erase spec.2 "resname" else spec.2
+  match d with
+  | .frm =>
+    let name := match spec.2.get "resname" with | some (.str s) => s | _ => ident
+    { c with names := c.names ++ [name], ids := dictSet c.ids (d, ident) attrs' }
+  | .to => { c with ids := dictSet c.ids (d, ident) attrs' }
+
+/-- the body of the loop of `_blocks` -/
+def blockStep (lib : Lib) (d : Dir) (mtype : String) (c : MCtx) (spec : String × Attrs) : Option MCtx :=
+  match fetchName (stripBang spec.1).2 spec.2 with
+  | none => some (register d mtype c spec)
+  | some v =>
+    match fetchMol lib d mtype c v with
+    | none => none
+    | some m => some (register d mtype (c.setMol d m) spec)
 
 def foldOpt {α β : Type} (f : β → α → Option β) : β → List α → Option β
   | b, [] => some b
@@ -321,11 +331,10 @@ def edgesLine (d : Dir) (line : String) (c : MCtx) : Option MCtx :=
     | some (a1, cur1) =>
       match resolve c.ids cur1 d at2, optAttrs rest with
       | some (a2, cur2), some _ =>
-        let m := c.mol d
-        match findAtoms m a1, findAtoms m a2 with
+        match findAtoms (c.mol d) a1, findAtoms (c.mol d) a2 with
         | [n1], [n2] =>
           if n1 = n2 then none
-          else some ((c.setCur d cur2).setMol d { m with edges := m.edges ++ [(n1, n2)] })
+          else some ((c.setCur d cur2).setMol d { c.mol d with edges := (c.mol d).edges ++ [(n1, n2)] })
         | _, _ => none
       | _, _ => none
   | _ => none
@@ -335,19 +344,28 @@ def weightOf : List String → Option Int
   | [] => some 1
   | x :: _ => pyInt? x
 
-/-- `_mapping` + `add_mapping` on the whitespace-split line -/
-def mappingToks (toks : List String) (c : MCtx) : Option MCtx :=
+/-- what a `[ mapping ]` line resolves to: (from node, to node, weight) and the new current
+identifiers; `none` = the line raises -/
+def mappingArgs (toks : List String) (c : MCtx) : Option (Nat × Nat × Int × Option Attrs × Option Attrs) :=
   match toks with
   | f :: t :: rest =>
     match weightOf rest, resolve c.ids c.curFrom .frm f, resolve c.ids c.curTo .to t with
     | some w, some (af, cf), some (ato, ct) =>
       match findAtoms c.molFrom af, findAtoms c.molTo ato with
-      | [i], [j] => some { c with curFrom := cf, curTo := ct, mapping := setW c.mapping i j w }
+      | [i], [j] => some (i, j, w, cf, ct)
       | _, _ => none
     | _, _, _ => none
   | _ => none
 
+/-- `_mapping` + `add_mapping` on the whitespace-split line -/
+def mappingToks (toks : List String) (c : MCtx) : Option MCtx :=
+  (mappingArgs toks c).map fun a =>
+    { c with curFrom := a.2.2.2.1, curTo := a.2.2.2.2, mapping := setW c.mapping a.1 a.2.1 a.2.2.1 }
+
 def mappingLine (line : String) (c : MCtx) : Option MCtx := mappingToks (splitWs line) c
+
+/-- the from nodes that map to `j`: `{from_ for from_ in mapping if node_to in mapping[from_]}` -/
+def mappedTo (m : WMap) (j : Nat) : List Nat := (m.filter fun e => (dget e.2 j).isSome).map (·.1)
 
 /-- `_reference_atoms` + `add_reference` -/
 def refLine (line : String) (c : MCtx) : Option MCtx :=
@@ -357,8 +375,7 @@ def refLine (line : String) (c : MCtx) : Option MCtx :=
     | some (ato, ct), some (af, cf) =>
       match findAtoms c.molTo ato with
       | [j] =>
-        let mapped := (c.mapping.filter fun e => (dget e.2 j).isSome).map (·.1)
-        match (findAtoms c.molFrom af).filter (fun i => mapped.contains i) with
+        match (findAtoms c.molFrom af).filter (fun i => (mappedTo c.mapping j).contains i) with
         | [i] => some { c with curFrom := cf, curTo := ct, refs := dictSet c.refs j i }
         | _ => none
       | _ => none
